@@ -25,7 +25,7 @@ EXTENDS Integers, Sequences, FiniteSets, TLC
 Slots == <<"lead", "parties", "preyear", "core", "pin", "parallel", "yp", "paren", "term", "trail">>
 SlotIx(s) == CHOOSE k \in DOMAIN Slots : Slots[k] = s
 
-Leads    == {"none", "prose", "see", "in"}
+Leads    == {"none", "prose", "see", "in", "long"}   \* "long": more than MAX_MATCH_CHARS of uninterrupted plain prose
 Parties  == {"none", "pv", "pvmulti", "inre", "ante", "antepin"}
 Pins     == {"none", "p", "range", "at", "two", "label"}
 YPs      == {"none", "year", "court", "bracket"}
@@ -47,18 +47,19 @@ Valid(s) ==
             /\ (s.parties = "antepin" => s.pin = "none")
             /\ (s.parallel => (s.yp \in {"year", "court"} /\ s.parties \in {"pv", "pvmulti"} /\ s.pin \in {"none", "p"}))
             /\ (s.lead = "in" => s.parties \in {"none", "ante", "antepin"})
-            /\ (s.parties \in {"ante", "antepin"} => s.lead \in {"none", "in"})
+            /\ (s.parties \in {"ante", "antepin"} => s.lead \in {"none", "in", "long"})
+            /\ (s.lead = "long" => s.parties \in {"ante", "antepin"})
             /\ (s.parties = "inre" => s.lead \in {"none", "see"})
        [] s.form = "short" ->
             /\ s.parties \in {"none", "ante"} /\ ~s.preyear /\ ~s.parallel /\ s.yp = "none"
             /\ s.pin \in {"p", "range"}                       \* the page after "at" and an optional range
             /\ s.paren \in {"none", "simple"}
             /\ (s.parties = "none" => s.lead \in {"none", "see"})
-            /\ (s.parties = "ante" => s.lead \in {"none", "in"})
+            /\ (s.parties = "ante" => s.lead \in {"none", "in", "long"})
        [] s.form = "supra" ->
             /\ s.parties = "ante" /\ ~s.preyear /\ ~s.parallel /\ s.yp = "none"
             /\ s.pin \in {"none", "at", "p"} /\ s.paren \in {"none", "simple"}
-            /\ s.lead \in {"none", "in"}
+            /\ s.lead \in {"none", "in", "long"}
             /\ (s.pin = "none" => s.term = "space")
        [] s.form = "id" ->
             /\ s.parties = "none" /\ ~s.preyear /\ ~s.parallel /\ s.yp = "none"
